@@ -516,9 +516,25 @@ class Recorder(object):
     """Stands in for exactpack.base.ExactSolution: records what the solver returns."""
 
     def __init__(self, data, names, jumps=None):
-        self.data = list(data)
-        self.names = list(names)
-        self.jumps = jumps
+        object.__setattr__(self, 'data', list(data))
+        object.__setattr__(self, 'names', list(names))
+        object.__setattr__(self, 'jumps', jumps)
+
+    def __getattr__(self, name):
+        names = self.__dict__.get('names', [])
+        if name in names:
+            return self.__dict__['data'][names.index(name)]
+        raise AttributeError(name)
+
+    def __setattr__(self, name, value):
+        names = self.__dict__.get('names', [])
+        if name in names:
+            self.__dict__['data'][names.index(name)] = value
+        else:
+            object.__setattr__(self, name, value)
+
+    def __len__(self):
+        return len(self.data[0])
 
     def __getitem__(self, name):
         return self.data[self.names.index(name)]
